@@ -17,7 +17,7 @@ LEVEL_TEXT = ("c12_single: a single-key operation contacts exactly the routed se
               "in order, each key once; c12_get_many / c12_set_many: one inner call per batch with exactly its keys / items. "
               "c12_set_then_op, c12_set_many_then_op: a set or set_many followed by ANY single-key operation (get, gets, delete, "
               "incr, touch, ...) on one of the written keys reaches the same server with the same bare key, and that server's "
-              "set_many batch carried the key's item - so what the server stored under the key (C05) is what the later operation "
+              "set_many batch (a dict, as in the code) has an entry for the key - so what the server stored under the key (C05) is what the later operation "
               "finds. Stated for clients with no failover bookkeeping pending (with failures: C13); dict-backed inner servers are "
               "exercised by the search.")
 LEVEL_NOTE = ("Trusted: Coq kernel; hand model's correspondence with hash.py (differential run: results, per-server call log, "
@@ -30,7 +30,8 @@ ASSUMPTIONS = ["inner clients are abstract (client_class seam): what a server st
                "keys are compared as Python values ('a' and b'a' are different keys)"]
 
 SERVERS = [("10.0.0.1", 11211), ("10.0.0.2", 11211), ("cache-a", 11212), "/tmp/mc.sock", ("10.0.0.5", 11211)]
-KEYS = ["k1", "k2", b"k3", "key:4", ("k1", "routed"), "k5", b"k6", "k7", ("k7", b"inner")]
+# pairs (server_key, key): also several pairs that share the inner key under different server keys, and next to the plain key
+KEYS = ["k1", "k2", b"k3", "key:4", ("k1", "routed"), "k5", b"k6", "k7", ("k7", b"inner"), ("k2", "routed"), ("k5", "routed"), "routed", ("key:4", b"inner")]
 
 
 def rand_case(rng, failures=True):
@@ -182,7 +183,7 @@ def search(ctx):
             prefix = rng.choice([b"", b"p:"])
             hc = HC(servers, key_prefix=prefix, retry_attempts=rng.choice([0, 1, 2]), retry_timeout=1, dead_timeout=30,
                     ignore_exc=True)
-            keys = ["key-%d" % i for i in range(12)] + [b"bkey-%d" % i for i in range(4)] + [("sk-%d" % i, "inner-%d" % i) for i in range(3)]
+            keys = ["key-%d" % i for i in range(12)] + [b"bkey-%d" % i for i in range(4)] + [("sk-%d" % i, "inner-%d" % i) for i in range(3)] + [("sk-%d" % i, "shared") for i in range(4)] + ["shared"]
             hist = []
             for step in range(rng.randrange(1, 12)):
                 ev = rng.random()
@@ -271,6 +272,8 @@ def search(ctx):
                             kk = ctx.oracle.call(7, rk)
                             sv = ctx.oracle.call(5, list(hc.hasher.nodes), kk[1], 0)[1] if kk[0] == "ok" else None
                             exp_pairs.append((sv, repr(bare)))
+                        if fam == "set_many":
+                            exp_pairs = sorted(set(exp_pairs))      # the per-server batch of set_many is a dict: equal bare keys are one entry
                         n_probe += 1
                         skipped = {sv for sv in pending if not any(g[0] == sv for g in got_pairs)}
                         exp_pairs = [e for e in exp_pairs if e[0] not in skipped]
